@@ -1,5 +1,7 @@
-// c12repro: deterministic, minimal reproductions of the C12 findings on the real keepers
-// (not part of the check; run it by hand:  go run -tags verif ./cmd/c12repro).
+// c12repro: the five witness histories of the C12 findings on the real keepers, printed in readable form
+// (not part of the check — cmd/c12/directed.go replays the same histories as case lines on every run;
+// run this by hand:  go run -tags verif ./cmd/c12repro).  The findings are fixed in /repo (932d1f99a, 96498654b,
+// 66dfa73a4): on the current tree the output shows the repaired behaviour; on a tree without a fix, the defect.
 //
 // Every scenario starts from the repository's own test genesis and uses only message servers / keepers:
 //
